@@ -138,6 +138,43 @@ prop("C02", "TestC02", "exploration",
      q, t, required_labels=["query-with-insertion", "multi-record+insertion", "several-insertions", "insertion-before-first-base", "insertion-after-last-base",
                             "skip-insertions", "omit-reference", "window", "wrap", "stdout", "threads>1"])
 
+VAR_GEN = ("annotation model: reference 20..90 nt (thorough 300), 0..4 (thorough 6) coding features, forward/reverse, 1..3 segments incl. abutting and "
+           "slippage joins, codon_start 1..3, overlapping / nested / shared-start, named or (GFF) unnamed, CDS or mature_protein_region_of_CDS; the "
+           "reference is repaired so every feature ends in a stop and has no internal stop; rendered as GenBank (a..b, join, complement, "
+           "complement(join), join(complement,...), /gene, /codon_start, multi-line /translation, ORIGIN) or GFF3 (rows sharing an ID, strand, phase "
+           "with or without spec continuation phases, ##sequence-region, ##FASTA, extra gene rows). Queries: substitutions biased to coding positions "
+           "and feature borders (bases, IUPAC codes containing / excluding the reference base, N, ?), rewritten codons, deletions, insertions, N tracts; "
+           "as FASTA MSA (reference anywhere in the file or taken from the annotation, shared insertion slots with left/right/spread placement, extra "
+           "all-gap columns) or as SAM records (C01 generator on the annotated reference, with or without --reference)")
+
+q, t = tiers(4, 1500, 16, 15000, floor_q=300, floor_t=3000, q_timeout=300)
+prop("C04", "TestC04", "exploration",
+     "Each generated case is run through variants (MSA form) or sam variants (SAM form) with --append-snps; every row is parsed and checked "
+     "against a coordinate-level oracle built from base sets and the NCBI table: (a) the positions mentioned as nuc: records or inside (nuc:...) "
+     "lists are exactly the positions with disjoint base sets, each with the right <ref><pos><qry> text (nothing dropped, nothing invented); "
+     "(b) every aa: record names a named feature whose k-th codon (strand, joins, codon_start applied by the oracle) translates to R in the "
+     "reference and unambiguously to Q != R in the query, with exactly that codon's SNPs listed; (c) every such codon has its record; (d) the run "
+     "without --append-snps equals the rows with the lists removed; rows are one per query in input order. Indels are checked as in C05.",
+     "Reference ambiguity codes are kept outside features and GenBank CDS always carry /gene (documented refusals otherwise); insertions inside a codon are ignored for translation as documented; record order inside a row is not asserted here.",
+     "property-based testing (rapid) against an independent reference model (base sets + NCBI table 1 + feature geometry)",
+     VAR_GEN + "; non-trivial = a query with >= 1 expected aa record and >= 1 nucleotide difference; distinct = hash of the case",
+     q, t, required_labels=["format:gb", "format:gff", "form:msa", "form:sam", "feat:reverse", "feat:joined", "feat:reverse-joined", "feat:overlapping",
+                            "feat:unnamed", "feat:codon_start>1", "aa-in-reverse-feature", "aa-codon-spans-join", "aa-from-iupac-codon",
+                            "snp-in-unnamed-feature", "codon-broken-by-gap", "gff:spec-phases", "row:aa", "row:nuc"])
+
+q, t = tiers(4, 1200, 16, 12000, floor_q=300, floor_t=3000, q_timeout=300)
+prop("C05", "TestC05", "exploration",
+     "Indel-heavy variant of the C04 generator (up to 5 insertions and 5 deletions per query, at the alignment ends, adjacent to each other and to "
+     "feature borders, MSA with other sequences' insertions and extra all-gap columns, and SAM form). Oracle: an independent scan in reference "
+     "coordinates (per slot the number of query symbols in reference-gap columns => ins:p:n; maximal runs of deleted reference positions => "
+     "del:p:n unless they include position 1 or L), compared as a multiset with the reported ins/del records. Metamorphic arm: every query is "
+     "re-run alone with all columns that are gaps in both rows removed and must give the same mutation list.",
+     "Oracle from the statement; the same rows are also checked for C04's nuc/aa rules.",
+     "property-based testing (rapid): reference-coordinate model + metamorphic relation (remove both-gap columns)",
+     VAR_GEN + "; non-trivial = >= 2 reference-gap runs with an indel, or an indel right of an earlier gap column; distinct = hash of the case",
+     q, t, required_labels=["indel-after-earlier-gap-column", "insertion-abutting-end", "insertion-abutting-start", "deletion-abutting-start",
+                            "deletion-abutting-end", "deletion-spanning-insertion-slot", "both-gap-columns", "form:sam", "form:msa"])
+
 NOT_CLAIMED = {}
 
 
